@@ -74,6 +74,8 @@ func runMapProtocolOn(c *Ctx, prefix, pkgRel, namePfx string, full bool) {
 	R.Rule(mp.rule("readmap-immutable"), "every map write (m[k]=v, delete) in the package is to the dirty map, under mu - never to a map obtained from a readOnly", 4)
 	R.Rule(mp.rule("range-promotes"), "Range: iterates without the lock over the snapshot (promoted first when amended); each value read through entry.load and skipped when deleted; a false result of the callback leaves the loop", 1)
 	R.Rule(mp.rule("no-callback-under-lock"), "no call of a function-typed parameter and no channel operation while mu is held", 8)
+	R.Rule(mp.rule("entry-tables"), "entry helpers: a value is returned only from a word found non-nil and not expunged; 'absent' only when the last loaded word is nil or expunged; success after a CAS only when that CAS succeeded", 5)
+	R.Rule(mp.rule("cas-retry-reloads"), "every iteration of a retry loop on entry.p loads the word again", 3)
 	R.Rule(mp.rule("effect-completeness"), "Store stores on every path; Load/LoadOrStore/LoadAndDelete return the entry operation's own result for the entry found after the re-check; Delete delegates to LoadAndDelete", 5)
 
 	mp.fMu = c.P.FieldOf(mp.pkg, "Map", "mu")
@@ -155,6 +157,7 @@ func runMapProtocolOn(c *Ctx, prefix, pkgRel, namePfx string, full bool) {
 		mp.rangePromotes()
 	}
 	mp.noCallbackUnderLock()
+	mp.entryTables()
 	if full {
 		mp.effectCompleteness()
 	}
@@ -1733,4 +1736,191 @@ func entryOpKind(n string) string {
 		return "cas"
 	}
 	return ""
+}
+
+// ---- entry-tables / cas-retry-reloads --------------------------------------------------------
+//
+// The helpers on one entry decide on the pointer word they loaded. entry-tables checks the result rows against
+// the facts the path has about that word; cas-retry-reloads checks that a retry loop looks at the word again.
+
+func (mp *mapProto) entryTables() {
+	c := mp.c
+	rule := mp.rule("entry-tables")
+	rule2 := mp.rule("cas-retry-reloads")
+	for _, fi := range mp.funcs {
+		if mp.isMapRecv(fi) || len(fi.SSA.Params) == 0 {
+			continue
+		}
+		recv := mp.recv(fi)
+		ps := mp.paths[fi]
+		isWordOp := func(e *Event) string {
+			if e.Kind != "call" || len(e.Args) == 0 || !isFieldAddr(e.Args[0], mp.fP, recv) {
+				return ""
+			}
+			return entryOpKind(e.Name)
+		}
+		nOps := 0
+		for _, p := range ps {
+			for i := range p.Events {
+				if isWordOp(&p.Events[i]) != "" {
+					nOps++
+				}
+			}
+		}
+		if nOps == 0 {
+			continue
+		}
+		loops := findLoops(ps)
+		isWordTerm := func(t *Term) bool {
+			if t == nil {
+				return false
+			}
+			if t.Op == "call" && entryOpKind(t.Sym) == "load" && len(t.Args) == 1 && isFieldAddr(t.Args[0], mp.fP, recv) {
+				return true
+			}
+			if t.Op == "loopvar" {
+				for _, li := range loops {
+					for phi, lv := range li.LV {
+						if lv.Key() == t.Key() {
+							in := li.Init[phi]
+							return in != nil && in.Op == "call" && entryOpKind(in.Sym) == "load"
+						}
+					}
+				}
+			}
+			return false
+		}
+		ok, why := true, ""
+		for _, p := range ps {
+			if p.End != EndReturn {
+				continue
+			}
+			fact := func(w *Term, op string, exp bool) bool {
+				for _, cd := range p.Conds {
+					r := cd.Rel()
+					if r.B == nil || r.Op != op {
+						continue
+					}
+					a, b := r.A, r.B
+					if b.Key() == w.Key() {
+						a, b = b, a
+					}
+					if a.Key() != w.Key() {
+						continue
+					}
+					if exp && mp.isExpunged(b) || !exp && b.IsNil() {
+						return true
+					}
+				}
+				return false
+			}
+			// the latest word value the path has: last load, or the loop variable carrying it
+			var latest *Term
+			lastOp, lastCAS := "", (*Event)(nil)
+			for i := range p.Events {
+				e := &p.Events[i]
+				switch isWordOp(e) {
+				case "load":
+					latest, lastOp = e.Res, "load"
+				case "cas":
+					lastOp, lastCAS = "cas", e
+				case "store", "swap":
+					lastOp = "store"
+				}
+			}
+			for _, cd := range p.Conds {
+				cd.T.Walk(func(x *Term) bool {
+					if x.Op == "loopvar" && isWordTerm(x) && latest == nil {
+						latest = x
+					}
+					return true
+				})
+			}
+			casOK := false
+			if lastCAS != nil {
+				for _, cd := range p.Conds {
+					t, pol := stripNot(cd.T, cd.Pol)
+					if t.Key() == lastCAS.Res.Key() && pol {
+						casOK = true
+					}
+				}
+				for _, r := range p.Rets {
+					if r.Key() == lastCAS.Res.Key() {
+						casOK = true // the CAS result itself is what is reported
+					}
+				}
+			}
+			// (1) a dereference of a word value needs it non-nil and not expunged
+			for _, r := range p.Rets {
+				r.Walk(func(x *Term) bool {
+					if x.Op != "load" || len(x.Args) != 1 {
+						return true
+					}
+					w := x.Args[0]
+					for w != nil && w.Op == "conv" {
+						w = w.Args[0]
+					}
+					if !isWordTerm(w) {
+						return true
+					}
+					if !fact(w, "!=", false) || !fact(w, "!=", true) {
+						ok, why = false, fmt.Sprintf("a path (%s) returns the value behind a word that it has not found non-nil and not expunged", p.CondString())
+					}
+					return true
+				})
+			}
+			// (2) "absent" needs the latest word value nil or expunged
+			if len(p.Rets) >= 2 && isZeroish(p.Rets[0]) {
+				allFalse := true
+				for _, r := range p.Rets[1:] {
+					if !r.IsConst("false") {
+						allFalse = false
+					}
+				}
+				if allFalse {
+					if latest == nil || !(fact(latest, "==", false) || fact(latest, "==", true)) {
+						ok, why = false, fmt.Sprintf("a path (%s) reports 'absent' although the word it last loaded has not been found nil or expunged", p.CondString())
+					}
+				}
+			}
+			// (3) success reported right after a CAS needs that CAS to have succeeded
+			if lastOp == "cas" && !casOK {
+				for _, r := range p.Rets {
+					if r.IsConst("true") {
+						ok, why = false, fmt.Sprintf("a path (%s) reports success after a compare-and-swap that it has not found successful", p.CondString())
+					}
+				}
+			}
+		}
+		o := c.R.Decide(ok, rule, fi.Name, "rows", c.pos(fi), "result rows agree with what the path knows about the word it loaded", why)
+		if !ok {
+			o.Breaks = "a present value is reported absent (or the reverse), or an entry is dropped from dirty while it holds a value"
+		}
+		// retry loops
+		if len(loops) > 0 {
+			ok2, why2 := true, ""
+			for _, li := range loops {
+				for _, p := range li.Back {
+					at := p.LoopAt[li.Hdr]
+					ops, loads := 0, 0
+					for i := at; i < len(p.Events); i++ {
+						switch isWordOp(&p.Events[i]) {
+						case "load":
+							loads++
+							ops++
+						case "cas", "store", "swap":
+							ops++
+						}
+					}
+					if ops > 0 && loads == 0 {
+						ok2, why2 = false, fmt.Sprintf("an iteration (%s) retries without loading the word again: with a concurrent writer the loop decides on a stale value forever", p.CondString())
+					}
+				}
+			}
+			o := c.R.Decide(ok2, rule2, fi.Name, "loops", c.pos(fi), "every retry iteration re-reads the word", why2)
+			if !ok2 {
+				o.Breaks = "livelock under contention"
+			}
+		}
+	}
 }
